@@ -172,10 +172,23 @@ class NameLookupRewriteVisitor(NodeTransformerBase):
         return super().generic_visit(node)
 
     def visit_Lambda(self, node: ast.Lambda) -> ast.AST:
+        # Default values are evaluated where the lambda is written
+        args = node.args
+        args.defaults = [self.visit(d) for d in args.defaults]
+        args.kw_defaults = [
+            d if d is None else self.visit(d) for d in args.kw_defaults
+        ]
+
         # The parameters of an enclosing lambda remain visible
         self.scopes.append(set(self.scopes[-1]))
         try:
-            return super().generic_visit(node)
+            for arg in args.posonlyargs + args.args + args.kwonlyargs:
+                self.visit(arg)
+            for arg in (args.vararg, args.kwarg):
+                if arg is not None:
+                    self.visit(arg)
+            node.body = self.visit(node.body)
+            return node
         finally:
             self.scopes.pop()
 
